@@ -1,0 +1,18 @@
+//go:build verif
+
+package eventbus
+
+import "unsafe"
+
+// VerifYield, when non-nil, is called at the scheduling points of
+// PublishContext (after the handler snapshot, after a once claim, at the
+// start and end of an async goroutine, around the once-handler removal).
+// It exists only in builds with the "verif" tag and is used by the external
+// verification harness to observe and steer interleavings.
+var VerifYield func(point string, handler uintptr)
+
+func verifYield(point string, h *internalHandler) {
+	if f := VerifYield; f != nil {
+		f(point, uintptr(unsafe.Pointer(h)))
+	}
+}
